@@ -359,6 +359,14 @@ func (p *c13) Exec(ctx core.Ctx, cc any) core.Obs {
 		if c.Part == "tree" || c.Part == "special" || c.All {
 			positions = c13AllPos
 		}
+		if c.Part == "special" {
+			// pipes are documented for the printing positions only
+			pipe := false
+			c.E.walk(func(x *c13E) { pipe = pipe || x.K == "|" })
+			if pipe {
+				positions = c13PrintPos
+			}
+		}
 		switch c.Part {
 		case "tree":
 			group = c13TreeGroup(c.E, style)
